@@ -359,10 +359,25 @@ def nat_custom_handlers(h):
             calls.append(('H5', i, field.name))
             row[field.name] = None
             return True
-    for _ in range(h.n(20, 200)):
+
+    def strict_a(res_name, row, i, e, field):
+        # a handler whose answer is not the same for every field: a bad `a` drops the row, a bad `b` is nulled and tolerated
+        calls.append(('strict_a', i, field.name))
+        if field.name == 'a':
+            return False
+        row[field.name] = None
+        return True
+
+    def strict_b(res_name, row, i, e, field):
+        calls.append(('strict_b', i, field.name))
+        if field.name == 'b':
+            return False
+        row[field.name] = None
+        return True
+    for _ in range(h.n(40, 300)):
         n = h.rng.randint(1, 6)
         rows = [{'a': h.rng.choice(['1', '2', 'x', '']), 'b': h.rng.choice(['3', 'y', '4'])} for _r in range(n)]
-        name, handler = h.rng.choice([('h4', h4), ('h5', h5), ('h5d', h5d), ('H5', H5())])
+        name, handler = h.rng.choice([('h4', h4), ('h5', h5), ('h5d', h5d), ('H5', H5()), ('strict_a', strict_a), ('strict_b', strict_b)])
         via = h.rng.choice(['set_type', 'validate'])
         del calls[:]
         if via == 'set_type':
@@ -381,6 +396,9 @@ def nat_custom_handlers(h):
         conv = lambda v: None if v == '' else int(v)
         if name == 'h4':
             want = [{'a': conv(r['a']), 'b': conv(r['b'])} for r in rows if not bad(r['a']) and not bad(r['b'])]
+        elif name in ('strict_a', 'strict_b'):
+            sf = name[-1]
+            want = [{'a': None if bad(r['a']) else conv(r['a']), 'b': None if bad(r['b']) else conv(r['b'])} for r in rows if not bad(r[sf])]
         else:
             want = [{'a': None if bad(r['a']) else conv(r['a']), 'b': None if bad(r['b']) else conv(r['b'])} for r in rows]
         ok = got[0] == 'ok' and got[1] == [want]
@@ -533,12 +551,16 @@ def sym_set_type_selection(vc):
             ST = real_function(it, 'dataflows.processors.set_type', 'set_type')
             pat = sym_str(it, 'fieldpat')
             st = it.call(ST, [pat], dict(resources=None, regex=regex, type='integer'))
+            # the step object may have been used before (another flow, an earlier run): whatever it registered then is arbitrary
+            from contracts.common import havoc_mutable_scalars
+            havoc_mutable_scalars(it, st, containers=True)
+            before = st.attrs.get('field_names')
             pw = mk_package2(it)
             it.path.info['allowed_exc'] = {'AssertionError': z3.BoolVal(True)}
             eff = pat.t if regex else lib.RE_ESCAPE(pat.t)
 
             def want(fname):
-                return lib.RE_MATCH(z3.Concat(z3.StringVal('^'), eff, z3.StringVal('$')), fname)
+                return lib.RE_FULLMATCH(eff, fname)      # the pattern (escaped when regex=False) matches the WHOLE field name
 
             def f_start(it, env, field):
                 return field, field.children['name'].t
@@ -557,6 +579,9 @@ def sym_set_type_selection(vc):
                 cover(it, 'field-iter-reachable[regex=%s]' % regex)
             it.loops['set_type.process_datapackage#L1'] = LoopSpec(at_start=f_start, at_end=f_end)
             it.call(it.lib.getattr_(it, st, 'process_datapackage'), [pw.attrs['pkg']])
+            after = st.attrs.get('field_names')
+            check(it, 'registered-names-are-those-of-this-package-only[regex=%s]' % regex,
+                  after is not before and getattr(after, 'history', None) is None)
         paths = vc.explore(fk, thunk, min_paths=3)
         expect_no_raise_or_same(vc, fk, paths)
     # added-flag: if no field was registered the step fails
@@ -636,6 +661,30 @@ def nat_set_type(h):
         else:
             ok = got[0] == 'ok' and got[1] == want_rows
         h.check(ok, P + 'set_type.py::set_type', (vals, pol), (err, want_rows), got[:2])
+    # field-name patterns with alternatives, prefixes of other names, and regex=False names with metacharacters: exactly the
+    # fields whose WHOLE name the pattern matches are retyped / checked; all other fields and all valid rows are untouched
+    import re as _re
+    cols = ['year', 'year_label', 'month', 'a.b', 'axb', 'id', 'id_old']
+    for pat, rx in (('year|month', True), ('id|ident', True), ('a.b', False), ('a.b', True), ('year', True), ('(year|month)_label', True)):
+        rows = [{c: ('%d' % (i + 1) if c in ('year', 'month', 'id') else 'txt%d' % i) for c in cols} for i in range(3)]
+        hit = [c for c in cols if (_re.fullmatch(pat, c) if rx else c == pat)]
+        got = h.run(lambda: Flow([dict(r) for r in rows], set_type(pat, type='integer', regex=rx, on_error=pf['clear'])).results(on_error=None))
+        if not hit:
+            continue          # nothing matched: set_type refuses (AssertionError), outside this check
+        if got[0] != 'ok':
+            h.check(False, P + 'set_type.py::set_type.process_datapackage', (pat, rx, hit), 'runs', got[:2])
+            continue
+        res, dp, _ = got[1]
+        types = {f['name']: f['type'] for f in dp.descriptor['resources'][0]['schema']['fields']}
+        okt = all((types[c] == 'integer') == (c in hit) for c in cols)
+
+        def cast(c, v):
+            if c not in hit:
+                return v
+            return int(v) if v.isdigit() else None
+        okr = res[0] == [{c: cast(c, r[c]) for c in cols} for r in rows]
+        h.check(okt and okr, P + 'set_type.py::set_type.process_datapackage', (pat, rx, hit), 'only the fully matched fields retyped',
+                ({c: t for c, t in types.items() if t == 'integer'}, res[0][:1]))
 
 
 def nat_set_type_multi(h):
@@ -655,6 +704,22 @@ def nat_set_type_multi(h):
         f = (lambda v: v.replace('-', '/')) if use_transform else (lambda v: v)
         want = [[dict(r, ship_date=f(r['ship_date'])) for r in a], [dict(r, order_date=f(r['order_date'])) for r in b]]
         h.check(res == want, P + 'set_type.py::set_type.process_resources', (a, b, use_transform), want, res)
+
+
+    # the same step object on a second table whose matching fields differ (same default resource name): the second table is cast
+    # on ITS matching fields, uncastable values are handled as on_error says, and no row gains a key its schema does not declare
+    from dataflows.base.schema_validator import drop
+    for use_transform in (False, True):
+        kw = dict(transform=(lambda v, **_k: v)) if use_transform else {}
+        step = set_type('.*_n', type='integer', on_error=drop, **kw)
+        t1 = [{'a_n': '1', 'x': 'p'}, {'a_n': '2', 'x': 'q'}]
+        t2 = [{'b_n': '7', 'c_n': 'oops', 'x': 'r'}, {'b_n': '8', 'c_n': '9', 'x': 's'}]
+        r1 = h.run(lambda: Flow([dict(r) for r in t1], step).results(on_error=None)[0])
+        r2 = h.run(lambda: Flow([dict(r) for r in t2], step).results(on_error=None)[0])
+        h.check(r1[0] == 'ok' and r1[1] == [[{'a_n': 1, 'x': 'p'}, {'a_n': 2, 'x': 'q'}]], P + 'set_type.py::set_type.process_datapackage',
+                ('first use', use_transform), 'a_n cast', r1[:2])
+        h.check(r2[0] == 'ok' and r2[1] == [[{'b_n': 8, 'c_n': 9, 'x': 's'}]], P + 'set_type.py::set_type.process_datapackage',
+                ('second use of the same step object, other matching fields', use_transform), [[{'b_n': 8, 'c_n': 9, 'x': 's'}]], r2[:2])
 
 
 # ------------------------------------------------------------------------------------------------ validate
